@@ -886,97 +886,7 @@ func (s *Server) handleRelease(req *dhcpv4.DHCPv4) {
 	}
 
 	if exists {
-		// Send RADIUS Accounting-Stop
-		if s.radiusClient != nil && lease.SessionID != "" {
-			sessionTime := uint32(time.Since(lease.SessionStart).Seconds())
-			go func() {
-				err := s.radiusClient.SendAccounting(context.Background(), &radius.AcctRequest{
-					SessionID:      lease.SessionID,
-					Username:       mac.String(),
-					MAC:            mac,
-					FramedIP:       lease.IP,
-					StatusType:     radius.AcctStatusStop,
-					InputOctets:    lease.InputBytes,
-					OutputOctets:   lease.OutputBytes,
-					SessionTime:    sessionTime,
-					TerminateCause: radius.TerminateCauseUserRequest,
-					Class:          lease.Class,
-				})
-				if err != nil {
-					s.logger.Warn("Failed to send RADIUS Accounting-Stop",
-						zap.String("session_id", lease.SessionID),
-						zap.Error(err),
-					)
-				}
-			}()
-		}
-
-		// Remove QoS policy
-		if s.qosMgr != nil {
-			if err := s.qosMgr.RemoveSubscriberQoS(lease.IP); err != nil {
-				s.logger.Warn("Failed to remove QoS policy",
-					zap.String("ip", lease.IP.String()),
-					zap.Error(err),
-				)
-			}
-		}
-
-		// Deallocate NAT
-		if s.natMgr != nil {
-			if err := s.natMgr.DeallocateNAT(lease.IP); err != nil {
-				s.logger.Warn("Failed to deallocate NAT",
-					zap.String("ip", lease.IP.String()),
-					zap.Error(err),
-				)
-			}
-		}
-
-		// Release IP back to pool
-		if pool := s.poolMgr.GetPool(lease.PoolID); pool != nil {
-			pool.Release(lease.IP)
-		}
-
-		// Remove from fast path cache (MAC-based)
-		macU64 := ebpf.MACToUint64(mac)
-		if err := s.loader.RemoveSubscriber(macU64); err != nil {
-			s.logger.Warn("Failed to remove from fast path cache",
-				zap.String("mac", mac.String()),
-				zap.Error(err),
-			)
-		}
-
-		// Remove from VLAN-based cache for QinQ deployments
-		if (lease.STag > 0 || lease.CTag > 0) && s.loader.HasVLANSupport() {
-			if err := s.loader.RemoveVLANSubscriber(lease.STag, lease.CTag); err != nil {
-				s.logger.Warn("Failed to remove from VLAN fast path cache",
-					zap.Uint16("s_tag", lease.STag),
-					zap.Uint16("c_tag", lease.CTag),
-					zap.Error(err),
-				)
-			}
-		}
-
-		// Issue #15: Remove circuit-id to MAC mapping if present
-		if len(lease.CircuitID) > 0 {
-			if err := s.loader.RemoveCircuitIDMapping(lease.CircuitID); err != nil {
-				s.logger.Warn("Failed to remove circuit-id to MAC mapping",
-					zap.String("mac", mac.String()),
-					zap.String("circuit_id", string(lease.CircuitID)),
-					zap.Error(err),
-				)
-			}
-
-			// Issue #56: Remove circuit-id subscriber mapping
-			if s.loader.HasCircuitIDSubscriberSupport() {
-				if err := s.loader.RemoveCircuitIDSubscriber(lease.CircuitID); err != nil {
-					s.logger.Warn("Failed to remove circuit-id subscriber mapping",
-						zap.String("mac", mac.String()),
-						zap.String("circuit_id", string(lease.CircuitID)),
-						zap.Error(err),
-					)
-				}
-			}
-		}
+		s.releaseLeaseResources(mac, lease, radius.TerminateCauseUserRequest, true)
 
 		s.logger.Info("DHCP RELEASE processed",
 			zap.String("mac", mac.String()),
@@ -986,6 +896,110 @@ func (s *Server) handleRelease(req *dhcpv4.DHCPv4) {
 	}
 
 	atomic.AddUint64(&s.releasesTotal, 1)
+}
+
+// releaseLeaseResources undoes everything handleRequest set up for a lease:
+// accounting, QoS policy, NAT block, the pool address (unless the caller keeps
+// it out of circulation) and every fast path cache entry. The caller has
+// already removed the lease from the lease table and the circuit-ID index.
+func (s *Server) releaseLeaseResources(mac net.HardwareAddr, lease *Lease, terminateCause uint32, releaseIP bool) {
+	// Send RADIUS Accounting-Stop
+	if s.radiusClient != nil && lease.SessionID != "" {
+		sessionTime := uint32(time.Since(lease.SessionStart).Seconds())
+		go func() {
+			err := s.radiusClient.SendAccounting(context.Background(), &radius.AcctRequest{
+				SessionID:      lease.SessionID,
+				Username:       mac.String(),
+				MAC:            mac,
+				FramedIP:       lease.IP,
+				StatusType:     radius.AcctStatusStop,
+				InputOctets:    lease.InputBytes,
+				OutputOctets:   lease.OutputBytes,
+				SessionTime:    sessionTime,
+				TerminateCause: terminateCause,
+				Class:          lease.Class,
+			})
+			if err != nil {
+				s.logger.Warn("Failed to send RADIUS Accounting-Stop",
+					zap.String("session_id", lease.SessionID),
+					zap.Error(err),
+				)
+			}
+		}()
+	}
+
+	// Remove QoS policy
+	if s.qosMgr != nil {
+		if err := s.qosMgr.RemoveSubscriberQoS(lease.IP); err != nil {
+			s.logger.Warn("Failed to remove QoS policy",
+				zap.String("ip", lease.IP.String()),
+				zap.Error(err),
+			)
+		}
+	}
+
+	// Deallocate NAT
+	if s.natMgr != nil {
+		if err := s.natMgr.DeallocateNAT(lease.IP); err != nil {
+			s.logger.Warn("Failed to deallocate NAT",
+				zap.String("ip", lease.IP.String()),
+				zap.Error(err),
+			)
+		}
+	}
+
+	// Release IP back to pool
+	if releaseIP {
+		if pool := s.poolMgr.GetPool(lease.PoolID); pool != nil {
+			pool.Release(lease.IP)
+		}
+	}
+
+	if s.loader == nil {
+		return
+	}
+
+	// Remove from fast path cache (MAC-based)
+	macU64 := ebpf.MACToUint64(mac)
+	if err := s.loader.RemoveSubscriber(macU64); err != nil {
+		s.logger.Warn("Failed to remove from fast path cache",
+			zap.String("mac", mac.String()),
+			zap.Error(err),
+		)
+	}
+
+	// Remove from VLAN-based cache for QinQ deployments
+	if (lease.STag > 0 || lease.CTag > 0) && s.loader.HasVLANSupport() {
+		if err := s.loader.RemoveVLANSubscriber(lease.STag, lease.CTag); err != nil {
+			s.logger.Warn("Failed to remove from VLAN fast path cache",
+				zap.Uint16("s_tag", lease.STag),
+				zap.Uint16("c_tag", lease.CTag),
+				zap.Error(err),
+			)
+		}
+	}
+
+	// Issue #15: Remove circuit-id to MAC mapping if present
+	if len(lease.CircuitID) > 0 {
+		if err := s.loader.RemoveCircuitIDMapping(lease.CircuitID); err != nil {
+			s.logger.Warn("Failed to remove circuit-id to MAC mapping",
+				zap.String("mac", mac.String()),
+				zap.String("circuit_id", string(lease.CircuitID)),
+				zap.Error(err),
+			)
+		}
+
+		// Issue #56: Remove circuit-id subscriber mapping
+		if s.loader.HasCircuitIDSubscriberSupport() {
+			if err := s.loader.RemoveCircuitIDSubscriber(lease.CircuitID); err != nil {
+				s.logger.Warn("Failed to remove circuit-id subscriber mapping",
+					zap.String("mac", mac.String()),
+					zap.String("circuit_id", string(lease.CircuitID)),
+					zap.Error(err),
+				)
+			}
+		}
+	}
 }
 
 // handleDecline handles DHCP DECLINE
@@ -1016,6 +1030,9 @@ func (s *Server) handleDecline(req *dhcpv4.DHCPv4) {
 	}
 
 	if exists && lease != nil {
+		// The session is over: release what it held. The address itself is not
+		// returned to the pool but marked unavailable.
+		s.releaseLeaseResources(mac, lease, radius.TerminateCauseUserError, false)
 		if pool := s.poolMgr.GetPool(lease.PoolID); pool != nil {
 			pool.MarkUnavailable(declinedIP)
 		}
@@ -1156,19 +1173,9 @@ func (s *Server) cleanupExpiredLeases() {
 			s.leasesByCircuitIDMu.Unlock()
 		}
 
-		// Release IP back to pool
-		if pool := s.poolMgr.GetPool(lease.PoolID); pool != nil {
-			pool.Release(lease.IP)
-		}
-
-		// Remove from fast path cache
-		if s.loader != nil {
-			hwAddr, _ := net.ParseMAC(mac)
-			if hwAddr != nil {
-				macU64 := ebpf.MACToUint64(hwAddr)
-				s.loader.RemoveSubscriber(macU64)
-			}
-		}
+		// Release everything the session held (address, NAT block, QoS
+		// policy, fast path cache entries) and send its Accounting-Stop
+		s.releaseLeaseResources(lease.MAC, lease, radius.TerminateCauseSessionTimeout, true)
 	}
 	s.leasesMu.Unlock()
 
